@@ -1140,8 +1140,11 @@ h2_recv_data (connection * const con, const uint8_t * const s, const uint32_t le
         }
         else {
             if (0 == alen) return 1; /*(nothing to sink; keep processing frames)*/
-            if (!h2c->sent_goaway)
-                h2_send_goaway_e(con, H2_E_NO_ERROR);
+            /* GOAWAY already sent: drop frame and keep processing frames
+             * (returning 0 with nothing queued to write would not reschedule
+             *  con and would strand subsequent frames in read queue) */
+            if (h2c->sent_goaway) return 1;
+            h2_send_goaway_e(con, H2_E_NO_ERROR);
             return 0;
         }
     }
